@@ -358,7 +358,12 @@ func (d *DBFT[H]) onPrepareRequest(msg ConsensusPayload[H]) {
 		return
 	}
 
-	d.sendPrepareResponse()
+	// A primary that gets its own PrepareRequest back (from a recovery message after
+	// a restart) already has its preparation in place: a PrepareResponse stored in the
+	// same slot would overwrite the request.
+	if !d.IsPrimary() {
+		d.sendPrepareResponse()
+	}
 	d.checkPrepare()
 }
 
